@@ -152,8 +152,9 @@ theorem field_exact_partial (O : Oracles) (R : String → PyVal → Bool) (S : S
 
 /-- **schema_exact (partial, field level: containers and nested classes).**  `field_exact_partial`
     extended to the fragment `exactF`: homogeneous `Array[X]` (any size bounds) and `Tuple[X]` without
-    `uniqueItems`, and nested Structure classes by `$ref` (no defaults), nested to any depth over the
-    exact scalars.  Every JSON document value (object keys are strings) that the field's schema admits —
+    `uniqueItems`, `Optional[X]` (not as a direct array element), `Map[String, X]` (unconstrained key, no size
+    bounds) and nested Structure classes by `$ref`
+    (no defaults), nested to any depth over the exact scalars.  Every JSON document value (object keys are strings) that the field's schema admits —
     class references resolved through a faithful definitions table with enough fuel — is not null and
     is accepted by `deserialize_single_field` and by the field's validation -/
 theorem field_exact_containers_partial (O : Oracles) (S : String → String → Bool)
@@ -164,10 +165,10 @@ theorem field_exact_containers_partial (O : Oracles) (S : String → String → 
     v.isNone = false ∧ ∃ y y', deser O opts ign f v = .ok y ∧ validate O f y = .ok y' := by
   unfold jsValidFuel at h
   rw [dialect_fix_field] at h
-  exact c08_exactN O S hS opts D f n ign v hfrag hrefs hn hdoc h
+  exact c08_exactN O S hS D f n opts ign v hfrag hrefs hn hdoc h
 
 /-- **schema_exact (partial, class level).**  For every class of `inExactFragment` (not a field wrapper,
-    no defaults, fields in `exactF`: exact scalars, Array[X], Tuple[X], nested classes, at any depth),
+    no defaults, fields in `exactF`: exact scalars, Array[X], Tuple[X], Optional[X], Map[String, X], nested classes, at any depth),
     every JSON object that the class's schema admits — the schema and definitions `structure_to_schema`
     returns, after the dialect rewrite, with fuel covering the nesting of class references — and every
     flag setting of the Deserializer: `Deserializer(cls).deserialize(doc)` succeeds (each member passes
@@ -368,13 +369,15 @@ def exExactCls : FieldDecl :=
                        ("s", .string (some 1) (some 3) none), ("b", .boolean),
                        ("e", .enumCls "Color" ["RED", "GREEN"]),
                        ("l", .seqOf .list (.tupleOf (.integer { max := some ⟨5, 1⟩ }) false) { max := some 2 }),
-                       ("n", .seqOf .list exExactInner {})]
+                       ("n", .seqOf .list exExactInner {}),
+                       ("o", .anyOf [.seqOf .list (.number {}) { min := some 1 }, .noneF]),
+                       ("m", .mapOf (.string none none none) (.tupleOf .boolean false) {})]
 
 theorem schema_exact_class_example :
     inExactFragment exExactCls = true
     ∧ classRefsFaithfulB (fixedPtrDefs exExactCls) exExactCls = true ∧ refDepth exExactCls = 2
-    ∧ schemaAccepts exS exExactCls 2 (.dict [(.str "i", .int 3), (.str "s", .str "xy"), (.str "e", .str "RED"), (.str "l", .list [.list [.int 1, .int 5], .list []]), (.str "n", .list [.dict [(.str "k", .int 2)]])]) = true
-    ∧ (match deserialize exO {} exExactCls (.dict [(.str "i", .int 3), (.str "s", .str "xy"), (.str "e", .str "RED"), (.str "l", .list [.list [.int 1, .int 5], .list []]), (.str "n", .list [.dict [(.str "k", .int 2)]])]) with
+    ∧ schemaAccepts exS exExactCls 2 (.dict [(.str "i", .int 3), (.str "s", .str "xy"), (.str "e", .str "RED"), (.str "l", .list [.list [.int 1, .int 5], .list []]), (.str "n", .list [.dict [(.str "k", .int 2)]]), (.str "o", .list [.float ⟨1, 2⟩]), (.str "m", .dict [(.str "k", .list [.bool true])])]) = true
+    ∧ (match deserialize exO {} exExactCls (.dict [(.str "i", .int 3), (.str "s", .str "xy"), (.str "e", .str "RED"), (.str "l", .list [.list [.int 1, .int 5], .list []]), (.str "n", .list [.dict [(.str "k", .int 2)]]), (.str "o", .list [.float ⟨1, 2⟩]), (.str "m", .dict [(.str "k", .list [.bool true])])]) with
        | .ok _ => true | .error _ => false) = true
     ∧ schemaAccepts exS exExactCls 2 (.dict [(.str "i", .int 11), (.str "s", .str "xy")]) = false := by decide
 
@@ -411,6 +414,19 @@ theorem admits_allOf_example :
     ∧ verdict (flat "K" ["x"] [("x", .allOf [.integer { min := some ⟨0, 1⟩ }, .number { mult := some 2 },
         .enumLit [.int 2, .int 4, .str "q"]]), ("b", .boolean)]) (.inst "K" [("x", .int 4)]) = true
     ∧ inSchemaFragment (flat "K" ["x"] [("x", .allOf [.integer {}, .float {}]), ("b", .boolean)]) = false := by decide
+
+/-- `OneOf` over Number / Integer / String options of pairwise different JSON types is inside
+    `schema_admits_partial`: the option that accepts the value accepts its serialization, every other
+    option's schema fails on `type`, so exactly one sub-schema matches.  Two numeric options are outside
+    (finding `admits:oneOf`: Python tells 1 from 1.0 and an int from a bool, JSON types do not) -/
+theorem admits_oneOf_example :
+    inSchemaFragment (flat "K" ["x"] [("x", .oneOf [.integer { min := some ⟨0, 1⟩ }, .string (some 1) none none]),
+        ("b", .boolean)]) = true
+    ∧ inAdmitRegion anyO (flat "K" ["x"] [("x", .oneOf [.integer { min := some ⟨0, 1⟩ }, .string (some 1) none none]),
+        ("b", .boolean)]) (.inst "K" [("x", .str "q")]) = true
+    ∧ verdict (flat "K" ["x"] [("x", .oneOf [.integer { min := some ⟨0, 1⟩ }, .string (some 1) none none]),
+        ("b", .boolean)]) (.inst "K" [("x", .str "q")]) = true
+    ∧ inSchemaFragment (flat "K" ["x"] [("x", .oneOf [.integer {}, .number {}]), ("b", .boolean)]) = false := by decide
 
 /-- fixed (was finding `ill-formed:default:not-json`): a default is written in its JSON form (a list of
     enum members as the list of their names, a set / tuple as an array); inside `schema_wellformed_partial` -/
@@ -492,6 +508,16 @@ theorem fixed_map_size :
       (.inst "K" [("m", .dict [(.str "p", .int 1)])]) = true
     ∧ verdict (flat "K" ["m"] [("m", .mapAny { max := some 1 }), ("b", .boolean)])
       (.inst "K" [("m", .dict [(.str "p", .int 1)])]) = true := by decide
+
+/-- fixed (was finding `admits:null-in-container`): in element position `Optional[X]` is exported as
+    `{"anyOf": [X, {"type": "null"}]}`; an array holding None validates (at class level the schema of an
+    Optional field stays the schema of X) -/
+theorem fixed_null_in_container :
+    verdict (flat "K" ["a"] [("a", .seqOf .list (.anyOf [.integer {}, .noneF]) {}), ("o", .anyOf [.integer {}, .noneF])])
+      (.inst "K" [("a", .list [.int 1, .none]), ("o", .int 2)]) = true
+    ∧ wfOf (flat "K" ["a"] [("a", .seqOf .list (.anyOf [.integer {}, .noneF]) {}), ("o", .anyOf [.integer {}, .noneF])]) = true
+    ∧ verdict (flat "K" ["m"] [("m", .mapOf (.string none none none) (.anyOf [.boolean, .noneF]) {}), ("b", .boolean)])
+      (.inst "K" [("m", .dict [(.str "k", .none)])]) = true := by decide
 
 /-- finding `exact:enum-null` (since fix 512799b an Enum with a None value is exported, with `null` among the
     enum members): the schema admits `{"d": null}` for a required `d`; the runtime treats a null as an
